@@ -116,6 +116,24 @@ impl From<&V7> for NetflowCommon {
     }
 }
 
+/// The V9 parser decodes PROTOCOL as `FieldValue::ProtocolType`; hand-built packets may carry a
+/// plain number.
+fn protocol_number_of(value: &FieldValue) -> Option<u8> {
+    match value {
+        FieldValue::ProtocolType(protocol) => Some(u8::from(*protocol)),
+        other => other.try_into().ok(),
+    }
+}
+
+/// The V9 parser decodes FIRST_SWITCHED / LAST_SWITCHED (sysUpTime milliseconds) as
+/// `FieldValue::Duration`; hand-built packets may carry a plain number.
+fn sys_up_time_of(value: &FieldValue) -> Option<u32> {
+    match value {
+        FieldValue::Duration(duration) => u32::try_from(duration.as_millis()).ok(),
+        other => other.try_into().ok(),
+    }
+}
+
 impl From<&V9> for NetflowCommon {
     fn from(value: &V9) -> Self {
         // Convert V9 to NetflowCommon
@@ -143,18 +161,17 @@ impl From<&V9> for NetflowCommon {
                             .and_then(|v| v.try_into().ok()),
                         protocol_number: value_map
                             .get(&V9Field::Protocol)
-                            .and_then(|v| v.try_into().ok()),
-                        protocol_type: value_map.get(&V9Field::Protocol).and_then(|v| {
-                            v.try_into()
-                                .ok()
-                                .map(|proto: u8| ProtocolTypes::from(proto))
-                        }),
+                            .and_then(protocol_number_of),
+                        protocol_type: value_map
+                            .get(&V9Field::Protocol)
+                            .and_then(protocol_number_of)
+                            .map(ProtocolTypes::from),
                         first_seen: value_map
                             .get(&V9Field::FirstSwitched)
-                            .and_then(|v| v.try_into().ok()),
+                            .and_then(sys_up_time_of),
                         last_seen: value_map
                             .get(&V9Field::LastSwitched)
-                            .and_then(|v| v.try_into().ok()),
+                            .and_then(sys_up_time_of),
                         src_mac: value_map
                             .get(&V9Field::InSrcMac)
                             .and_then(|v| v.try_into().ok()),
